@@ -449,6 +449,15 @@ theorem midAct_setPrev {g : Game} (h : MidAct g) (x : Int) (hx : 0 ≤ x) : MidA
   ⟨h.opts, struct_same (g := g) (g' := g.setPrev x) rfl rfl h.struct, chipsOK_setPrev g x hx h.chips, h.ev,
     (soft_setPrev g x).onlyCur h.only⟩
 
+theorem wagerOf_nonneg {g : Game} (ok : ChipsOK g) (i : Nat) : 0 ≤ g.wagerOf i := by
+  unfold Game.wagerOf
+  cases hp : g.players[i]? with
+  | none => simp
+  | some p => simpa using (ok.pinv p (List.mem_of_getElem? hp)).wager0
+
+theorem midAct_recordBet {g : Game} (h : MidAct g) (i : Nat) : MidAct (g.recordBet i) :=
+  midAct_setPrev h _ (wagerOf_nonneg h.chips i)
+
 theorem mem_available_call {g : Game} {p : Player} (h : Act.call ∈ g.availableActions p) : p.wager < g.cw := by
   unfold Game.availableActions at h
   by_cases h1 : p.fold = true
@@ -554,7 +563,7 @@ theorem inv_act (g : Game) (hi : Inv g) (i : Nat) (a : Act) (x : Int) : Inv (g.a
         obtain ⟨p, hp, he, _, _⟩ := allows_spec hi (by simpa using h)
         have hx' : 0 ≤ x := by omega
         unfold Game.doBet
-        exact inv_resume _ (midAct_setPrev (midAct_pay (midAct_setActed (hi.midAct he) i) i x hx') x hx')
+        exact inv_resume _ (midAct_recordBet (midAct_pay (midAct_setActed (hi.midAct he) i) i x hx') i)
   | raise =>
     simp only
     split
